@@ -37,6 +37,15 @@ static bool g_casekeys = false;
 static std::string ukey(Rng &r) {  // keys for Utils documents
     if (g_casekeys) { static const char *cs[] = {"a", "A", "b", "B", "c", "C", "d", "aa", "aA", "Ab"}; return cs[r.below(10)]; }
     static const char *ks[] = {"a", "b", "A", "", "/", "~", "a/b", "m~n", "0", "1", "-", "x", "foo", "B", "c", "d", "new"};
+    if (r.chance(1, 14)) {
+        // long keys: pointer lengths sweep across the sizes a fixed scratch buffer could have (powers of two), with and
+        // without characters whose pointer encoding is longer than the key
+        static const int base[] = {16, 32, 64, 128, 256, 512, 1024};
+        size_t len = r.chance(1, 2) ? (size_t)(base[r.below(7)] + 2 - (int)r.below(16)) : (size_t)r.range(1, 300);
+        std::string k(len, (char)('a' + r.below(26)));
+        if (r.chance(1, 4)) k[r.below(len)] = r.chance(1, 2) ? '/' : '~';
+        return k;
+    }
     return ks[r.below(17)];
 }
 static Step mk(const std::string &op, std::initializer_list<int64_t> a = {}, std::initializer_list<std::string> s = {}) {
@@ -134,6 +143,7 @@ static void common_knobs(Plan &p, Rng &r, int profile) {
     p.knobs["fill"] = (int64_t)r.range(1, 255);
     p.knobs["realloc"] = (int64_t)r.below(2);              // 0 always move, 1 shrink in place
     p.knobs["profile"] = profile;
+    if (p.knobs["hooks"] == 1 && r.chance(1, 3)) p.knobs["reuse"] = 1;   // custom allocator that reuses a released block at once (LIFO per size)
 }
 
 Plan gen_plan(const std::string &prop, uint64_t seed, int64_t run) {
